@@ -61,10 +61,14 @@ type c12Finite struct {
 	// first ends that many times with a transient cause (and must be requested again) before the clean end arrives.
 	AckAll         bool  `json:"ack_all,omitempty"`
 	TransientAtEnd []int `json:"transient_at_end,omitempty"`
+	// Reset: checkpoint.autoReset ("" = default). NoCkpt: the group has never stored a checkpoint when the finite session
+	// opens (with "latest" every vBucket then starts at its current end, which is also the sampled end: nothing to stream)
+	Reset  string `json:"reset,omitempty"`
+	NoCkpt bool   `json:"no_ckpt,omitempty"`
 }
 
 func c12ExecFinite(sc c12Finite) string {
-	h := &hScenario{NumVb: 16, Lo: 2, Hi: 2 + sc.NVb - 1, Finite: true}
+	h := &hScenario{NumVb: 16, Lo: 2, Hi: 2 + sc.NVb - 1, Finite: true, Reset: sc.Reset}
 	s := newSession(h, "C12", "C03")
 	// first (infinite) session builds the server history and the stored checkpoints
 	s.cfg.Dcp.Mode = ""
@@ -72,6 +76,9 @@ func c12ExecFinite(sc c12Finite) string {
 	for v := 0; v < sc.NVb; v++ {
 		for i := 0; i < sc.Total[v]; i++ {
 			s.deliver(hOp{Op: "deliver", Vb: v, Kind: []string{"mut", "del", "mut", "exp"}[i%4], Snap: i % 3})
+		}
+		if sc.NoCkpt {
+			continue
 		}
 		s.ack(hOp{Op: "ack", Vb: 0, N: 0})
 		m := s.vbOf(v)
@@ -81,7 +88,9 @@ func c12ExecFinite(sc c12Finite) string {
 			s.ackOne(m, ev)
 		}
 	}
-	s.save(hOp{Op: "save"})
+	if !sc.NoCkpt {
+		s.save(hOp{Op: "save"})
+	}
 	if s.viol != nil {
 		return s.viol.Detail
 	}
@@ -194,6 +203,8 @@ func TestC12_Finite(t *testing.T) {
 		}
 		sc.Order = rapid.SliceOfN(rapid.IntRange(0, 5), 1, 12).Draw(rt, "order")
 		sc.AckAll = rapid.Bool().Draw(rt, "ackall")
+		sc.Reset = rapid.SampledFrom([]string{"", "earliest", "latest", "latest"}).Draw(rt, "reset")
+		sc.NoCkpt = rapid.IntRange(0, 2).Draw(rt, "nockpt") == 0
 		trans := false
 		if rapid.Bool().Draw(rt, "transients") {
 			for v := 0; v < sc.NVb; v++ {
@@ -212,6 +223,9 @@ func TestC12_Finite(t *testing.T) {
 		labs := []string{lab, "finite_cases"}
 		if trans {
 			labs = append(labs, "finite_transient_end_at_sampled_end")
+		}
+		if sc.NoCkpt {
+			labs = append(labs, "finite_first_start_reset_"+sc.Reset)
 		}
 		record("C12", sc, sc.NVb >= 2, labs...)
 	})
